@@ -672,6 +672,34 @@ func extractAuth(f *ast.File) authLogic {
 	return al
 }
 
+// refusalOnly: the body of notFoundHandler / methodNotAllowedHandler must be the single statement
+// api.sendResponse(w, http.StatusXxx, errors.New("…"), nil); returns the status.
+var httpStatus = map[string]int{"http.StatusNotFound": 404, "http.StatusMethodNotAllowed": 405, "http.StatusBadRequest": 400}
+
+func refusalOnly(f *ast.File, name string) int {
+	fd := findFunc(f, name, true)
+	if fd == nil {
+		die("handler function %s not found", name)
+	}
+	if len(fd.Body.List) != 1 {
+		die("%s: %d statements, expected the single sendResponse", name, len(fd.Body.List))
+	}
+	es, ok := fd.Body.List[0].(*ast.ExprStmt)
+	if !ok {
+		die("%s: not an expression statement", name)
+	}
+	ce, ok := es.X.(*ast.CallExpr)
+	if !ok || render(ce.Fun) != "api.sendResponse" || len(ce.Args) != 4 || render(ce.Args[0]) != "w" || render(ce.Args[3]) != "nil" ||
+		!strings.HasPrefix(render(ce.Args[2]), "errors.New(") {
+		die("%s: not api.sendResponse(w, status, errors.New(…), nil)", name)
+	}
+	st, ok := httpStatus[render(ce.Args[1])]
+	if !ok {
+		die("%s: unrecognised status %s", name, render(ce.Args[1]))
+	}
+	return st
+}
+
 func leanList(l []string) string {
 	qs := make([]string, len(l))
 	for i, s := range l {
@@ -733,6 +761,15 @@ func main() {
 		b.WriteString("def methodNotAllowedHandler : Option String := none\n")
 	} else {
 		fmt.Fprintf(&b, "def methodNotAllowedHandler : Option String := some %s\n", q(mna))
+	}
+	if notFound == "" {
+		die("no NotFoundHandler installed")
+	}
+	fmt.Fprintf(&b, "def notFoundStatus : Nat := %d\n", refusalOnly(f, notFound))
+	if mna == "" {
+		b.WriteString("def methodNotAllowedStatus : Option Nat := none\n")
+	} else {
+		fmt.Fprintf(&b, "def methodNotAllowedStatus : Option Nat := some %d\n", refusalOnly(f, mna))
 	}
 	b.WriteString("/-- handler wrapping order of NewAPIWithHost, outermost first -/\n")
 	fmt.Fprintf(&b, "def chain : List String := %s\n", leanList(plain))
